@@ -456,7 +456,10 @@ func (app *App) buildTree() *App {
 		tsMap := make(map[int][]*Route)
 		for _, route := range app.stack[m] {
 			treePathHash := 0
-			if len(route.routeParser.segs) > 0 && len(route.routeParser.segs[0].Const) >= maxDetectionPaths {
+			// a three-byte constant with an optional trailing slash ("/a/" before an optional
+			// parameter) also matches the two-byte path, which is looked up in the global bucket
+			if len(route.routeParser.segs) > 0 && len(route.routeParser.segs[0].Const) >= maxDetectionPaths &&
+				!(len(route.routeParser.segs[0].Const) == maxDetectionPaths && route.routeParser.segs[0].HasOptionalSlash) {
 				treePathHash = int(route.routeParser.segs[0].Const[0])<<16 |
 					int(route.routeParser.segs[0].Const[1])<<8 |
 					int(route.routeParser.segs[0].Const[2])
